@@ -1,5 +1,6 @@
 import Lean.Data.Json
 import BpModel.Model.PyRt
+import BpModel.Model.CRtTree
 /-!
 # bpdrv — line-protocol driver for the executable model
 
@@ -156,6 +157,56 @@ def handle (op : String) (req : Json) : Except String Json := do
   | "py.fresh" =>
     let (_, t) ← getTy req
     pure (okJson (valToJson t (PyRt.fresh t)))
+  | "c.encode" =>
+    let (t0, t) ← getTy req
+    let be ← req.getObjValAs? Bool "be"
+    let v ← valOfJson t0 (← req.getObjVal? "val")
+    match CRt.encode be t v with
+    | .ok bs => pure (okJson (toHex bs))
+    | .error e => pure (excJson e)
+  | "c.decode" =>
+    let (_, t) ← getTy req
+    let be ← req.getObjValAs? Bool "be"
+    let bs ← ofHex (← req.getObjValAs? String "bytes")
+    match CRt.decode be t bs with
+    | .ok v => pure (okJson (valToJson t v))
+    | .error e => pure (excJson e)
+  | "c.copybits" =>
+    let be ← req.getObjValAs? Bool "be"
+    let n ← req.getObjValAs? Nat "n"
+    let di ← req.getObjValAs? Nat "di"
+    let si ← req.getObjValAs? Nat "si"
+    let dst ← ofHex (← req.getObjValAs? String "dst")
+    let src ← ofHex (← req.getObjValAs? String "src")
+    let st := CRt.copyBits be n (bytesToNat dst) (bytesToNat src) di si
+    if st.whi ≤ dst.length ∧ st.rhi ≤ src.length then
+      pure (Json.mkObj [("ok", toHex (natToBytes dst.length st.D)), ("whi", st.whi), ("rhi", st.rhi)])
+    else pure (Json.mkObj [("exc", "oob"), ("whi", st.whi), ("rhi", st.rhi)])
+  | "c.encbase" =>
+    let be ← req.getObjValAs? Bool "be"
+    let n ← req.getObjValAs? Nat "n"
+    let i ← req.getObjValAs? Nat "i"
+    let mem ← ofHex (← req.getObjValAs? String "mem")
+    let wire ← ofHex (← req.getObjValAs? String "wire")
+    let st := CRt.encBase be n mem (bytesToNat wire) i
+    if st.whi ≤ wire.length then pure (okJson (toHex (natToBytes wire.length st.D)))
+    else pure (Json.mkObj [("exc", "oob")])
+  | "c.decbase" =>
+    let be ← req.getObjValAs? Bool "be"
+    let n ← req.getObjValAs? Nat "n"
+    let i ← req.getObjValAs? Nat "i"
+    let signed ← req.getObjValAs? Bool "signed"
+    let mem ← ofHex (← req.getObjValAs? String "mem")
+    let wire ← ofHex (← req.getObjValAs? String "wire")
+    let r := CRt.decBase be n mem (bytesToNat wire) i
+    if r.2.rhi ≤ wire.length then
+      -- BpEndecodeInt: sign handling on the integer the cell holds, stored back in host order
+      let mem' := if signed then
+          let u := CRt.cellVal be r.1
+          CRt.cellOf be mem.length (CRt.signFix mem.length n u)
+        else r.1
+      pure (okJson (toHex mem'))
+    else pure (Json.mkObj [("exc", "oob")])
   | _ => .error s!"unknown op {op}"
 
 def handleLine (line : String) : Json :=
